@@ -35,7 +35,7 @@ CLAIM = {
  'technique': 'Lean 4 proof (structural induction, omega, decide) + model-implementation correspondence',
  'design_ref': 'DESIGN.md section 6 C06',
 }
-RULE = ('LIS files built from random abstract log-pass descriptions (1..6 channels of rep codes 49/50/56/66/68/70/73/77/79 '
+RULE = ('LIS files built from random abstract log-pass descriptions (1..6, one in four up to 20, channels of rep codes 49/50/56/66/68/70/73/77/79 '
         'with samples and bursts, explicit or indirect X, up/down/time, regular / short-last / irregular frames per record, '
         'type 0 and type 1 passes, interleaved passes, delimiters, tables, other records) under random physical layouts '
         '(record length 16..65535, trailers, TIF markers); plus single-pass files with FLOATING POINT X axes (X word in rep code 68/50/49, spacing 0.1, 0.15, 1/3, 0.1524 ... at large X, implied and explicit); per log pass a sequence of 2-5 loads with random slices and '
@@ -507,6 +507,10 @@ def oracle_index(ctx, bf, idx, case):
 
 # ------------------------------------------------------------------ case generation
 
+# most log passes have 1..6 channels; one in four may have up to 12 or 20, so that channel subsets reach indices >= 8
+# (where the iteration order of a Python set of small ints stops being ascending: round-6 seed C06-12)
+WIDE_CH = [6, 6, 6, 6, 6, 6, 12, 20]
+
 def random_loads(rng, bf, nmax=5):
     loads = []
     for pi, p in enumerate(bf.passes):
@@ -529,6 +533,10 @@ def random_loads(rng, bf, nmax=5):
             else:
                 k = rng.randint(1, nch)
                 ch = [rng.randrange(nch) for _ in range(k)] if rng.random() < 0.3 else sorted(rng.sample(range(nch), k))
+                if nch > 8 and rng.random() < 0.5:
+                    # a high index together with low ones, in any order of mention (hash-slot order of {1, 8} is 8, 1)
+                    ch = [c for c in ch if c < 8][:2] + [rng.randrange(8, nch) for _ in range(rng.randint(1, 2))]
+                    rng.shuffle(ch)
                 if rng.random() < 0.03:
                     ch = ch + [nch + rng.randint(0, 2)]
                 if rng.random() < 0.04:
@@ -709,7 +717,8 @@ def run(ctx):
     for k in range(ctx.n(1500, 16000)):
         small = rng.random() < 0.5
         fdesc = lislog.random_file_desc(rng, max_passes=2, small=small, jitter=rng.random() < 0.2, zero_rec=0.05,
-                                        max_rec=rng.choice([1, 3, 6]), max_fpr=rng.choice([1, 3, 7, 12]))
+                                        max_rec=rng.choice([1, 3, 6]), max_fpr=rng.choice([1, 3, 7, 12]),
+                                        max_ch=rng.choice(WIDE_CH))
         bf = lislog.build_file(fdesc)
         cases.append((fdesc, random_loads(rng, bf)))
     B = 100
@@ -743,7 +752,8 @@ def search(ctx):
     lislog = _gen()
     rng = ctx.rng
     for k in range(ctx.n(600, 3000)):
-        fdesc = lislog.random_file_desc(rng, max_passes=2, small=rng.random() < 0.6, jitter=rng.random() < 0.2)
+        fdesc = lislog.random_file_desc(rng, max_passes=2, small=rng.random() < 0.6, jitter=rng.random() < 0.2,
+                                        max_ch=rng.choice(WIDE_CH))
         run_case(ctx, mods, fdesc, random_loads(rng, lislog.build_file(fdesc)))
         if [f for f in ctx.failures if f['finding'] is None]:
             break
